@@ -9,6 +9,10 @@ SetToSeq(S) == IF S = {} THEN <<>>
 SubsetReplies == {SetToSeq(S) : S \in SUBSET Nodes}
 DupReplies == {<<a, b, a>> : a, b \in Nodes}
 AllReplies == SubsetReplies \cup DupReplies
+\* the model-checking configs use every subset plus a few duplicated / unordered lists (the admission
+\* loop treats a list as the set of its elements: Admit's contains check)
+SomeDupReplies == {r \in DupReplies : r[1] > r[2] /\ r[1] - r[2] <= 2} \cup {<<2, 2, 2>>}
+McReplies == SubsetReplies \cup SomeDupReplies
 
 \* initial peer lists of size 0..k (as multisets: the loop sorts first), plus two unsorted ones
 Multisets(k) == UNION {{s \in [1..n -> Nodes] : \A i \in 1..(n - 1) : s[i] <= s[i + 1]} : n \in 0..k}
@@ -17,7 +21,8 @@ Init2 == Multisets(2) \cup {<<3, 1>>, <<2, 3, 2>>}
 
 \* the exhaustive small case family of DHTGen
 SmallInitials == {<<>>, <<0>>, <<2>>, <<1, 2>>, <<2, 2>>, <<2, 1, 2>>, <<0, 2>>}
-SmallMins == {0, 1}
+SmallMins == {0}
+SmallGetInitials == {<<1, 2>>, <<2, 2>>, <<0, 2>>}
 
 AllOps == {"findnode", "join", "get", "put"}
 MinsAll == {0, 1, 3}
